@@ -262,6 +262,13 @@ def check_reload(col, rule="C09.R5"):
                 okf = False
         col.add(rule, f"{q}#{what}-flags-from-same-row", okf, sx.loc(sets[0]) if sets else sx.loc(sx.fn),
                 f"the {what} active flags are restored, for every {what}, from the same log row", "")
+    movers_ = ("step", "solve", "set_knobs_from_x", "run_jacobian", "_clip_to_limits", "run_simplex", "run_direct", "run_bfgs", "run_ls_trf",
+               "run_ls_dogbox", "run_l_bfgs_b")
+    after = [ev_.nid for ev_, m_ in sx.calls_some(("call", ("attr", S.SELF, S.V("m", lambda t: t in movers_)), S.ANY, S.ANY))
+             if not stores or any(cfg.path_avoiding(e.nid, ev_.nid, []) for e in stores)]
+    col.add(rule, f"{q}#nothing-moves-the-knobs-after-the-restore", not after, sx.loc(after[0]) if after else sx.loc(sx.fn),
+            "what reload() leaves in the containers are the logged values: nothing clips, steps or resets the knobs after they were written",
+            f"{[sx.loc(a) for a in after]}" if after else "")
     col.add(rule, f"{q}#logs-the-restored-point", bool(sx.calls_some(("call", ("attr", S.SELF, "add_point_to_log"), S.ANY, S.ANY))), sx.loc(sx.fn),
             "after restoring, the point is logged (re-evaluated)", "")
     tag = sx.pnamed("tag") if "tag" in sx.sym.params else None
